@@ -454,7 +454,7 @@ pub fn generate_into(ctx: &mut Ctx, mutate: &dyn Fn(&mut Rng, &[u8], &[Vec<u8>])
     let mut rng = Rng::new(ctx.seed ^ 0xCE47D);
     let pool = Pool::new(3);
     let seeds = cert_seeds(&pool);
-    let per = if ctx.tier_thorough { 3000 } else { 300 };
+    let per = if ctx.id == "C01" { if ctx.tier_thorough { 400 } else { 40 } } else if ctx.tier_thorough { 3000 } else { 300 };
     for data in &seeds {
         ctx.case(&format!("certd {}", hex(data)));
         for d in structured(data) { ctx.case(&format!("certd {}", hex(&d))); }
